@@ -794,3 +794,75 @@ def r_max(a, b):
 def r_min(a, b):
     x, y = sorted([str(_r(a)), str(_r(b))])
     return fn_atom("min", x, y)
+
+
+# ------------------------------------------------------------------ IEEE operation trees (association-sensitive)
+def optree(crate, n, env, cell):
+    """Nested tuple describing the floating-point operations of a scalar expression exactly as written:
+    commutative operands of ONE operation are sorted, but nesting (association) is preserved."""
+    n = strip(n)
+    nm = cell(n)
+    if nm is not None:
+        return ("cell", nm)
+    k = n.get("k")
+    if k == "lit":
+        return ("lit", str(Fr(n["v"].replace("_", "").rstrip("f32").rstrip("f64").rstrip("u64").rstrip("usize"))) if n["v"][0].isdigit() else n["v"])
+    if k == "local":
+        if n["hid"] in env:
+            return env[n["hid"]]
+        return ("var", n["name"])
+    if k in ("field", "index"):
+        return ("place", pretty(n))
+    if k == "cast":
+        return optree(crate, n["x"], env, cell)
+    if k == "un" and n["op"] == "Neg":
+        return ("neg", optree(crate, n["x"], env, cell))
+    if k == "bin":
+        a, b = optree(crate, n["l"], env, cell), optree(crate, n["r"], env, cell)
+        op = n["op"].lower()
+        if op in ("add", "mul"):
+            a, b = sorted([a, b], key=repr)
+        return (op, a, b)
+    if k == "mcall":
+        return ("call", n["name"], optree(crate, n["recv"], env, cell)) + tuple(optree(crate, a, env, cell) for a in n["args"])
+    if k == "call":
+        return ("call", n["callee"].rsplit("::", 1)[-1]) + tuple(optree(crate, a, env, cell) for a in n["args"])
+    if k == "if":
+        return ("if", pretty(n["c"]), optree(crate, n["th"], env, cell), optree(crate, n["el"], env, cell) if n["el"] is not None else None)
+    if k == "blk":
+        b = n["b"]
+        env = dict(env)
+        for s_ in b["stmts"]:
+            if s_.get("k") == "let" and s_["pat"].get("k") == "bind" and s_["init"] is not None:
+                env[s_["pat"]["hid"]] = optree(crate, s_["init"], env, cell)
+            else:
+                return ("stmt", pretty(s_))
+        return optree(crate, b["tail"], env, cell) if b["tail"] is not None else ("unit",)
+    return ("other", pretty(n))
+
+
+def optree_of_update(crate, body, cell):
+    """operation tree of the single cell update performed by a per-element body (`*a op= e`, `*a = e`, or a value)"""
+    body = strip(body)
+    stmts = []
+    if body.get("k") == "blk":
+        stmts = list(body["b"]["stmts"]) + ([body["b"]["tail"]] if body["b"]["tail"] is not None else [])
+    else:
+        stmts = [body]
+    env = {}
+    out = []
+    for s_ in stmts:
+        s_ = s_ if s_.get("k") in ("let",) else strip(s_)
+        if s_.get("k") == "let" and s_["pat"].get("k") == "bind" and s_["init"] is not None:
+            env[s_["pat"]["hid"]] = optree(crate, s_["init"], env, cell)
+        elif s_.get("k") == "assignop":
+            op = s_["op"].replace("Assign", "").lower()
+            a, b = optree(crate, s_["l"], env, cell), optree(crate, s_["r"], env, cell)
+            if op in ("add", "mul"):
+                a, b = sorted([a, b], key=repr)
+            out.append(("set", optree(crate, s_["l"], env, cell), (op, a, b)))
+        elif s_.get("k") == "assign":
+            out.append(("set", optree(crate, s_["l"], env, cell), optree(crate, s_["r"], env, cell)))
+        else:
+            out.append(("value", optree(crate, s_, env, cell)))
+    return tuple(out)
